@@ -1047,7 +1047,11 @@ class LieTensor(Tensor):
         r'''
         See :meth:`pypose.add`
         '''
-        return self.clone().add_(other = alpha * other)
+        out = self
+        if isinstance(other, torch.Tensor) and other.dim() > 0:
+            shape = torch.broadcast_shapes(self.shape[:-1], other.shape[:-1])
+            out = self.expand(shape + self.shape[-1:])
+        return out.clone().add_(other = alpha * other)
 
     def add_(self, other, alpha=1):
         r'''
